@@ -186,6 +186,8 @@ func (a *Analysis) CheckC07(rep *Report) {
 		}
 		nev += a.decodeBufferUse(rep, "S2-exact-consuming-atoms", ct.Name+".Decode", r.DecPaths)
 	}
+	// S5: exact consumption of the dynamic part presupposes that it is decoded as the type it was encoded as (C12)
+	a.discriminatorPremise(rep, "S5-discriminators-verified-by-C12", "the discriminator does not build the pinned type: the decoder then consumes the bytes of a different layout")
 	// S3: at the level of the library, in the generic bodies (type parameters by position): what a reader primitive
 	// consumes is what some writer primitive produces, and the reverse – also for the instantiations no message uses
 	probs, ppos, nr := a.primitiveMirror()
@@ -259,6 +261,9 @@ func (a *Analysis) CheckC08(rep *Report) {
 			}
 		}
 	}
+	// R6: re-encoding the decoded value reproduces the bytes only if the dynamic part was decoded as the type it was
+	// encoded as (C12): a different type re-encodes a different layout
+	a.discriminatorPremise(rep, "R6-discriminators-verified-by-C12", "the discriminator does not build the pinned type: the dynamic part is decoded as another layout and re-encodes differently")
 	rep.Counts["fields"] = nf
 	rep.Floor("fields", nf, goldenFloor("fields", 1000))
 	rep.Sample(map[string]interface{}{"allow_list_decode": []string{"wire value itself", "string(bytes)", "bytes.TrimLeft/TrimRight(bytes, string(pad)) on the pad side", "append in read order"}, "allow_list_encode": []string{"[]byte(text)", "[:N] cut", "pad bytes before/after", "T(len(x)) prefix"}})
@@ -453,6 +458,14 @@ func (a *Analysis) CheckC11(rep *Report) {
 		}
 		nf := a.errorDiscipline(rep, ct.Name+".Decode", ct.Decode, r.DecPaths)
 		total += nf
+		// E4: the argument's premise – every success path of Decode consumes the whole encoding (C07 S1). A success path
+		// that reads fewer atoms than Encode writes (a read skipped when the bytes are not there, a field the encoder
+		// added and the decoder ignores) accepts a message cut inside what it does not read.
+		if probs, ppos := a.mirrorProblems(ct); len(probs) > 0 {
+			rep.Ob("E4-success-paths-consume-the-whole-encoding", ct.Name, false, ppos, "C07 S1 does not hold, so a cut inside the part some success path does not read goes unnoticed: "+strings.Join(probs, "; "))
+		} else {
+			rep.Ob("E4-success-paths-consume-the-whole-encoding", ct.Name, true, "", "")
+		}
 		// a Decode that reads anything has a way to fail: a failed read, or an availability check that refuses
 		nerr := 0
 		for _, p := range r.DecPaths {
@@ -464,6 +477,9 @@ func (a *Analysis) CheckC11(rep *Report) {
 			typesFailing++
 		}
 	}
+	// E5: the other premise: the dynamic part is decoded as the type the schema pairs with the discriminator read – a
+	// table that builds a shorter type for a key accepts every cut behind that type's last byte (C12)
+	a.discriminatorPremise(rep, "E5-discriminators-verified-by-C12", "the discriminator does not build the pinned type: a message cut behind the (shorter) type it does build is accepted")
 	np := 0
 	for _, pp := range a.allPrimPaths() {
 		if !hasEvent(pp.paths, isRead) && !hasEvent(pp.paths, func(e *Event) bool { return e.Kind == EvObj && e.Dir == "Decode" }) {
